@@ -150,8 +150,17 @@ class TrioEventLoop(EventLoop):
             True if the scope was cancelled, False if it was cancelled already
             before invoking this function
         """
-        existed = not scope.cancel_called
-        scope.cancel()
+        for index, (_task, pending_scope, _args) in enumerate(self._pending_tasks):
+            if pending_scope is scope:
+                # not started yet (no nursery): there is nothing to cancel, just forget the task
+                del self._pending_tasks[index]
+                return True
+        try:
+            existed = not scope.cancel_called
+            scope.cancel()
+        except RuntimeError:
+            # outside of a running Trio loop: the task belonged to a run that is over
+            return False
         return existed
 
     def run(self) -> None:
